@@ -60,6 +60,17 @@ pub trait Hooks: Sync {
     fn label(&self, s: &'static str, arg: usize);
     /// a coroutine is about to be resumed (`enter`) / has switched off its stack
     fn co_resume(&self, enter: bool, co: usize);
+    /// store-buffer model: the engine may take over a store that is not `SeqCst` (returns true)
+    /// and make it visible to the other threads later, the shim then skips the real store
+    fn defer_store(&self, _addr: usize, _size: u8, _bits: u64) -> bool {
+        false
+    }
+    /// the value of the calling thread's youngest deferred store to `addr`, if there is one
+    fn forward_load(&self, _addr: usize) -> Option<u64> {
+        None
+    }
+    /// a `SeqCst` fence is about to execute
+    fn fence(&self) {}
 }
 
 static mut HOOKS: Option<&'static dyn Hooks> = None;
@@ -105,6 +116,19 @@ pub fn cell(op: Op, addr: usize) {
     if let Some(h) = hooks() {
         h.cell(op, addr, Location::caller());
     }
+}
+
+#[inline]
+pub fn defer_store(addr: usize, size: usize, bits: u64) -> bool {
+    match hooks() {
+        Some(h) => h.defer_store(addr, size as u8, bits),
+        None => false,
+    }
+}
+
+#[inline]
+pub fn forward_load(addr: usize) -> Option<u64> {
+    hooks().and_then(|h| h.forward_load(addr))
 }
 
 #[inline]
@@ -206,8 +230,50 @@ impl Drop for Bracket {
 
 /// atomics with the std API that report every operation before executing it
 pub mod atomic {
-    use super::{point, post, Op};
+    use super::{defer_store, forward_load, point, post, Op};
     pub use std::sync::atomic::Ordering;
+
+    /// like `std::sync::atomic::fence`, a `SeqCst` fence is reported first
+    #[inline]
+    pub fn fence(o: Ordering) {
+        if o == Ordering::SeqCst {
+            if let Some(h) = super::hooks() {
+                h.fence();
+            }
+        }
+        std::sync::atomic::fence(o)
+    }
+
+    /// value <-> raw bits, for the store-buffer model
+    pub trait Bits: Copy {
+        fn to_bits(self) -> u64;
+        fn from_bits(b: u64) -> Self;
+    }
+    macro_rules! int_bits {
+        ($($t:ty),*) => {$(
+            impl Bits for $t {
+                #[inline]
+                fn to_bits(self) -> u64 {
+                    self as u64
+                }
+                #[inline]
+                fn from_bits(b: u64) -> Self {
+                    b as $t
+                }
+            }
+        )*};
+    }
+    int_bits!(usize, u64, isize);
+    impl Bits for bool {
+        #[inline]
+        fn to_bits(self) -> u64 {
+            self as u64
+        }
+        #[inline]
+        fn from_bits(b: u64) -> Self {
+            b != 0
+        }
+    }
 
     macro_rules! int_atomic {
         ($name:ident, $std:ty, $t:ty) => {
@@ -222,13 +288,24 @@ pub mod atomic {
                 #[track_caller]
                 pub fn load(&self, o: Ordering) -> $t {
                     point(Op::Load, self as *const _ as usize);
+                    if let Some(b) = forward_load(self as *const _ as usize) {
+                        return <$t as Bits>::from_bits(b);
+                    }
                     self.0.load(o)
                 }
                 #[inline]
                 #[track_caller]
                 pub fn store(&self, v: $t, o: Ordering) {
                     point(Op::Store, self as *const _ as usize);
-                    self.0.store(v, o);
+                    if o == Ordering::SeqCst
+                        || !defer_store(
+                            self as *const _ as usize,
+                            std::mem::size_of::<$t>(),
+                            Bits::to_bits(v),
+                        )
+                    {
+                        self.0.store(v, o);
+                    }
                     post(self as *const _ as usize)
                 }
                 #[inline]
@@ -277,6 +354,9 @@ pub mod atomic {
                 #[track_caller]
                 pub unsafe fn unsync_load(&self) -> $t {
                     point(Op::Load, self as *const _ as usize);
+                    if let Some(b) = forward_load(self as *const _ as usize) {
+                        return <$t as Bits>::from_bits(b);
+                    }
                     self.0.load(Ordering::Relaxed)
                 }
             }
@@ -352,13 +432,24 @@ pub mod atomic {
         #[track_caller]
         pub fn load(&self, o: Ordering) -> *mut T {
             point(Op::Load, self as *const _ as usize);
+            if let Some(b) = forward_load(self as *const _ as usize) {
+                return b as usize as *mut T;
+            }
             self.0.load(o)
         }
         #[inline]
         #[track_caller]
         pub fn store(&self, v: *mut T, o: Ordering) {
             point(Op::Store, self as *const _ as usize);
-            self.0.store(v, o);
+            if o == Ordering::SeqCst
+                || !defer_store(
+                    self as *const _ as usize,
+                    std::mem::size_of::<usize>(),
+                    v as usize as u64,
+                )
+            {
+                self.0.store(v, o);
+            }
             post(self as *const _ as usize)
         }
         #[inline]
@@ -407,6 +498,9 @@ pub mod atomic {
         #[track_caller]
         pub unsafe fn unsync_load(&self) -> *mut T {
             point(Op::Load, self as *const _ as usize);
+            if let Some(b) = forward_load(self as *const _ as usize) {
+                return b as usize as *mut T;
+            }
             self.0.load(Ordering::Relaxed)
         }
     }
